@@ -95,11 +95,14 @@ impl CodeGenerator {
         } else {
             let mut float_vector = Vec::with_capacity(size as usize);
             let mut r = rand::thread_rng();
-            let n = Normal::new(mean, stddev).unwrap();
-            for _i in 0..size {
-                float_vector.push(n.sample(&mut r));
+            if let Ok(n) = Normal::new(mean, stddev) {
+                for _i in 0..size {
+                    float_vector.push(n.sample(&mut r));
+                }
+                Some(FloatVector::new(float_vector))
+            } else {
+                None
             }
-            Some(FloatVector::new(float_vector))
         }
     }
 
